@@ -75,3 +75,27 @@ def clientBytes (hello : List FVal) (rev : Nat) (quotaKey : Bytes) : Bytes :=
 
 end Handshake
 end Model
+
+namespace Model
+namespace Handshake
+
+/-! ### waiting for the hello (discrete time)
+
+`packet()` arms a read deadline of `min(now + readTimeout, handshake deadline)`; the handshake retries
+read timeouts until the handshake context is done.  `arrival` is the instant the hello's first byte
+is available; all instants are natural numbers in one unit. -/
+
+/-- the retry loop of the handshake; `true` = the hello is read -/
+def waitHello : Nat → Nat → Nat → Nat → Nat → Bool
+  | 0, _, _, _, _ => false
+  | fuel + 1, now, readTO, hsTO, arrival =>
+    let deadline := min (now + readTO) hsTO
+    if arrival ≤ deadline then true
+    else if hsTO ≤ deadline then false          -- the handshake context is done
+    else waitHello fuel deadline readTO hsTO arrival
+
+/-- the earlier design: one read bounded by the per-packet read timeout -/
+def waitHelloOnce (readTO hsTO arrival : Nat) : Bool := decide (arrival ≤ min readTO hsTO)
+
+end Handshake
+end Model
